@@ -80,13 +80,12 @@ func c18Tagged(payload, field string) string {
 func c18FieldsOf(problems []string) []string {
 	seen := map[string]bool{}
 	for _, p := range problems {
-		ms := c18TagRE.FindAllStringSubmatch(strings.ToLower(p), -1)
-		if len(ms) == 0 {
-			seen["untagged"] = true
-		}
-		for _, m := range ms {
+		for _, m := range c18TagRE.FindAllStringSubmatch(strings.ToLower(p), -1) {
 			seen[c18FieldName(m[1])] = true
 		}
+	}
+	if len(seen) == 0 && len(problems) > 0 {
+		seen["untagged"] = true
 	}
 	var out []string
 	for k := range seen {
